@@ -396,7 +396,7 @@ class Site(interfaces.ObservableResource, PathCapable):
 
         remainder = [request.opt.uri_path[-1]]
         path = request.opt.uri_path[:-1]
-        while path:
+        while True:
             if path in self._subsites:
                 res = self._subsites[path]
                 if remainder == [""]:
@@ -405,6 +405,8 @@ class Site(interfaces.ObservableResource, PathCapable):
                 stripped = request.copy(uri_path=remainder)
                 stripped._original_request_path = original_request_path
                 return res, stripped
+            if not path:
+                break
             remainder.insert(0, path[-1])
             path = path[:-1]
         raise KeyError()
